@@ -4,7 +4,7 @@
 (* of SecLang.tla reads every rendering back as the description (RoundTrip) and emits, for each text,  *)
 (* what the reference reader makes of it, to be compared with what the real parser compiles.           *)
 EXTENDS SecLang, Json, SequencesExt
-CONSTANTS Family,        \* "targets" | "op" | "acts"
+CONSTANTS Family,        \* "targets" | "op" | "acts" | "chain"
           Mutate,        \* TRUE: also the near-miss texts of the renderings selected by MutStyle
           AllStyles,     \* TRUE: every style combination, FALSE: a covering handful
           Slice, Slices
@@ -49,7 +49,23 @@ ActLists == {<<ID, PH, A(n, TRUE, x.v, x.q), PASS>> : n \in {"msg", "logdata", "
          <<ID, A("severity", TRUE, <<"2">>, FALSE), A("ver", TRUE, <<"v", ".", "1">>, FALSE), A("multimatch", FALSE, << >>, FALSE), PASS>>,
          <<ID>>}
 
-Descs == CASE Family = "targets" -> {[targets |-> ts, op |-> DefOp, acts |-> DefActs] : ts \in TargetLists}
+CHAIN == A("chain", FALSE, << >>, FALSE)
+DENY == A("deny", FALSE, << >>, FALSE)
+\* chains: a starter carrying the disruptive action and 1-2 links (no id, no phase, no disruptive action of their own)
+Starters == {[targets |-> DefTargets, op |-> DefOp, acts |-> <<ID, PH, A("msg", TRUE, x.v, x.q), DENY, CHAIN>>] : x \in {z \in Vals : z.v \in {<<"x">>, <<"a", COM, "b">>, <<"a", BS, SQ>>}}}
+Links == {[targets |-> ts, op |-> o, acts |-> as] :
+            ts \in {<<T("REQUEST_HEADERS", FALSE, FALSE, "plain", <<"Kk">>)>>, <<T("ARGS", FALSE, FALSE, "rx", <<"a", PIPE, "b">>)>>, <<T("TX", FALSE, TRUE, "none", << >>)>>},
+            o \in {O(TRUE, "", <<"a", DQ>>), O(FALSE, "streq", <<"a", SP, "b">>)},
+            as \in {<< >>, <<A("t", TRUE, <<"lowercase">>, FALSE)>>, <<A("tag", TRUE, <<"a", COM, "b">>, TRUE), A("capture", FALSE, << >>, FALSE)>>}}
+WithChain(l) == [l EXCEPT !.acts = IF l.acts = << >> THEN <<CHAIN>> ELSE l.acts \o <<CHAIN>>]
+BareLinks == {l \in Links : l.acts = << >>}
+ChainSeqs == IF AllStyles
+             THEN {<<s0, l>> : s0 \in Starters, l \in Links} \cup {<<s0, WithChain(l1), l2>> : s0 \in Starters, l1 \in Links, l2 \in BareLinks}
+             ELSE LET S1 == {s0 \in Starters : s0.acts[3].val = <<"a", COM, "b">>} IN
+                  {<<s0, l>> : s0 \in S1, l \in Links} \cup {<<s0, WithChain(l1), l2>> : s0 \in S1, l1 \in BareLinks, l2 \in BareLinks}
+
+Descs == CASE Family = "chain"   -> ChainSeqs
+           [] Family = "targets" -> {[targets |-> ts, op |-> DefOp, acts |-> DefActs] : ts \in TargetLists}
            [] Family = "op"      -> {[targets |-> DefTargets, op |-> o, acts |-> as] : o \in Ops, as \in {DefActs, << >>}}
            [] Family = "acts"    -> {[targets |-> DefTargets, op |-> DefOp, acts |-> as] : as \in ActLists}
 
@@ -63,6 +79,8 @@ MutStyle(s) == s = Plain \/ s = Style(FALSE, FALSE, TRUE, TRUE, "actions", FALSE
 
 NoMut == [kind |-> "none", pos |-> 0]
 Structural(r) == r \notin {"c", "w", "nl", "cmt", "indent"}
+DS == IF Family = "chain" THEN d ELSE <<d>>        \* the rules of the text
+Rendered == RenderAll(DS, st)
 Muts(ps) == {[kind |-> k, pos |-> i] : k \in {"del", "dup"}, i \in {j \in 1..Len(ps) : Structural(ps[j].r)}}
 Apply(ps, m) == CASE m.kind = "none" -> ps
                   [] m.kind = "del" -> SubSeq(ps, 1, m.pos - 1) \o SubSeq(ps, m.pos + 1, Len(ps))
@@ -73,15 +91,15 @@ Init == /\ \E i \in 1..Len(DescSeq) : i % Slices = Slice /\ d = DescSeq[i]
         /\ st \in Styles
         /\ mut = NoMut
 Next == /\ Mutate /\ mut = NoMut /\ MutStyle(st)
-        /\ mut' \in Muts(Render(d, st))
+        /\ mut' \in Muts(Rendered)
         /\ UNCHANGED <<d, st>>
 Spec == Init /\ [][Next]_<<d, st, mut>>
 
-Pieces == Apply(Render(d, st), mut)
+Pieces == Apply(Rendered, mut)
 \* every rendering of a description reads back as that description: the renderer is unambiguous under the reference reader
-RoundTrip == mut = NoMut => Read(Strs(Pieces)) = Ok(Normal(d))
+RoundTrip == mut = NoMut => ReadAll(Strs(Pieces)) = Ok([i \in 1..Len(DS) |-> Normal(DS[i])])
 \* a mutated text either is rejected or reads as something; it never reads back as the original unless the delimiter was redundant
-Emit == PrintT(<<"OUT", ToJson([fam |-> Family, d |-> Normal(d), style |-> st, toks |-> Strs(Pieces),
-                                mut |-> [kind |-> mut.kind, pos |-> mut.pos, role |-> IF mut.kind = "none" THEN "" ELSE Render(d, st)[mut.pos].r],
-                                exp |-> Read(Strs(Pieces))])>>)
+Emit == PrintT(<<"OUT", ToJson([fam |-> Family, ds |-> [i \in 1..Len(DS) |-> Normal(DS[i])], style |-> st, toks |-> Strs(Pieces),
+                                mut |-> [kind |-> mut.kind, pos |-> mut.pos, role |-> IF mut.kind = "none" THEN "" ELSE Rendered[mut.pos].r],
+                                exp |-> ReadAll(Strs(Pieces))])>>)
 =============================================================================
